@@ -49,7 +49,7 @@ class Stats:
 
 
 # ------------------------------------------------------------------------------ helpers
-BUILD_CMDS = {"leaf", "doomed", "joinid", "apply", "join", "chain", "mat", "transfer", "process",
+BUILD_CMDS = {"leaf", "doomed", "joinid", "apply", "join", "joinon", "chain", "mat", "transfer", "process",
               "unwrap", "rawu", "rawchain", "rawjoin", "conform"}
 
 
@@ -1080,11 +1080,16 @@ def oracle_C10(cmds, impl, model, stats: Stats):
     stats.corr_diffs = getattr(stats, "corr_diffs", []) + sql_correspondence(ctx, stats, cmds)
     out = []
     paid: set[str] = set()           # serials of mat/xfer markers seen holding a payload
+    paid_m: set[str] = set()         # ... according to the MODEL (proved write-once / evaluate-once, Props/C10)
     last: dict[str, list] = {}       # latest printed tree of every pool relation
     last_text: dict[str, str] = {}
     for k, c in enumerate(ctx.cmds):
         il = impl[k]
         # payloads never disappear: once `#k+` was printed, `#k` is never printed without `+` again
+        if k < len(model):
+            for ser, mark in re.findall(r"\(mat #(\d+)(\+?)", model[k]):
+                if mark == "+":
+                    paid_m.add(ser)
         for ser, mark in re.findall(r"\((?:mat|xfer) #(\d+)(\+?)", il):
             if mark == "+":
                 paid.add(ser)
@@ -1136,7 +1141,10 @@ def oracle_C10(cmds, impl, model, stats: Stats):
                     go(x[3])
                     go(x[4])
                 elif h in ("mat", "xfer"):
-                    if x[1].strip("#+") in paid:
+                    # cached according to the implementation's own bookkeeping, or according to the
+                    # model (an executed materialization that was NOT cached must not buy a second
+                    # evaluation of its upstream tree)
+                    if x[1].strip("#+") in paid or (h == "mat" and x[1].strip("#+") in paid_m):
                         return
                     go(x[3])
                 elif h == "select+":
@@ -1239,6 +1247,10 @@ def oracle_C20(cmds, impl, model, stats: Stats):
                 if nxt[0] == "apply":
                     need = op_required_sx(nxt[3])
                     really = not need <= ops[0]["colset"]
+                elif nxt[0] == "joinon":
+                    # explicit common columns: the fixed operand has them all, the target lacks one
+                    common = set(nxt[4])
+                    really = common <= ops[1]["colset"] and not common <= ops[0]["colset"]
                 else:
                     from gen import G
                     really = not G.pred_cols(nxt[4]) <= (ops[0]["colset"] | ops[1]["colset"])
